@@ -179,3 +179,23 @@ func TestRecordsSameByValue(t *testing.T) {
 		t.Errorf("missing field accepted")
 	}
 }
+
+func TestSumSameByMagnitude(t *testing.T) {
+	grp := []*model.Event{
+		ev(1, 1, "c", 1.7976931348623157e+308), ev(2, 2, "c", -5.5e99), ev(3, 3, "c", -1.7976931348623157e+308), ev(4, 4, "c", 2.5),
+	}
+	if !sumSameByMagnitude("sum", "f:-5.5e+99", "f:2.5", grp, "c") {
+		t.Errorf("cancellation of huge terms: both association orders must be accepted")
+	}
+	small := []*model.Event{ev(1, 1, "c", 1.5), ev(2, 2, "c", 2.25), ev(3, 3, "c", -0.75)}
+	if sumSameByMagnitude("sum", "f:3", "f:3.001", small, "c") {
+		t.Errorf("a real difference was accepted")
+	}
+	if !sumSameByMagnitude("sum", "f:3", "f:3.0000000000000004", small, "c") {
+		t.Errorf("a one-ulp difference was refused")
+	}
+	ints := []*model.Event{ev(1, 1, "c", 1), ev(2, 2, "c", 2)}
+	if sumSameByMagnitude("sum", "i:3", "i:4", ints, "c") {
+		t.Errorf("integer sums are exact")
+	}
+}
